@@ -570,8 +570,8 @@ def gen_cases(tier, seed):
     rnd = random.Random(seed)
     cases = []
     if tier == "quick":
-        singles = single_scripts(2, 400, maxa, rnd)
-        nmulti = 5000
+        singles = single_scripts(3, 600, maxa, rnd)
+        nmulti = 8000
     else:
         singles = single_scripts(3, 3000, maxa, rnd) + [list(p) for p in itertools.product(NT[:7], repeat=maxa)]
         nmulti = 30000
